@@ -4,6 +4,8 @@
     topology the configuration loader accepts, any table state, oracle and - except [filter_then_bind] - fault record;
     pairwise-disjoint requested ranges where stated.
 
+    [filter_then_bind] is proved for pairwise-disjoint requested range lists (and, without that premise, for no
+    requested ranges / at most one range list without an IP of the key: [filter_then_bind_partial]).
     [bind_routable] as asked for is still FALSE for pods WITHOUT requested ranges whose key holds two IPs (finding K7,
     open): Filter and Bind each take "the first" IP of the key in Go map order, possibly different ones
     ([bind_routable_refuted], reachable: [bind_routable_witness_reachable]).  It is proved with the premise
@@ -149,13 +151,22 @@ Print Assumptions fresh_exact.
 
 (** * filter then bind *)
 
-(* The statement asked for (proved so far in the forms below):
-   Theorem filter_then_bind : ∀ w p nodes o fl w1 l ns name node o2 w2 r,
-     WInv w → w_pods w !! (ns, name) = Some p → pd_node p = [] → filter_section w p nodes o fl = (w1, FNodes l) → In node l →
-     w_lister w1 !! (ns, name) = Some p →
-     bind_section true true w1 ns name (pd_uid p) node o2 no_faults = (w2, r) →
-     (∃ ips, r = BOk ips) ∨ r = BStuck ∨
-     (r = BErr ∧ ∃ y ey, i_alloc (w_ipam w1) !! y = Some ey ∧ e_key ey = pod_key p ∧ e_uid ey ≠ [] ∧ e_uid ey ≠ pd_uid p). *)
+(** with no injected fault, the informer showing the pod, the pod still pending in the API server, bind on a
+    filter-approved node succeeds - or the oracle given is not one the implementation could have taken (BStuck), or an
+    IP of the key is still stored for an earlier incarnation (the documented wait for its deletion event).
+    This is the statement asked for, plus the premise that the requested range lists are pairwise disjoint
+    ([ranges_disjoint]; trivially true without requested ranges).  It was FALSE before the repair of F14
+    ([filter_then_bind_refuted_restart_old]); with overlapping range lists it is not claimed (cf.
+    [C02.sticky_ranges_overlap_refuted]: Bind's re-query may then meet the same address in two lists). *)
+Theorem filter_then_bind : ∀ w p nodes o fl w1 l ns name node o2 w2 r,
+  WInv w → w_pods w !! (ns, name) = Some p → pd_node p = [] → ranges_disjoint (pd_ranges p) →
+  filter_section w p nodes o fl = (w1, FNodes l) → In node l →
+  w_lister w1 !! (ns, name) = Some p →
+  bind_section true true w1 ns name (pd_uid p) node o2 no_faults = (w2, r) →
+  (∃ ips, r = BOk ips) ∨ r = BStuck ∨
+  (r = BErr ∧ ∃ y ey, i_alloc (w_ipam w1) !! y = Some ey ∧ e_key ey = pod_key p ∧ e_uid ey ≠ [] ∧ e_uid ey ≠ pd_uid p).
+Proof. exact filter_then_bind_l. Qed.
+Print Assumptions filter_then_bind.
 
 (** F14, the OLD behaviour.  Tables of witness [wit3] = the world after process start, creation of the pod and its
     delivery to the informer ([filter_then_bind_witness_reachable_old]): three pools on the subnets of node1, node2,
@@ -178,10 +189,7 @@ Theorem filter_then_bind_witness_reachable_old :
 Proof. split; [exact wit3_reachable|exact wit3_filter_now]. Qed.
 Print Assumptions filter_then_bind_witness_reachable_old.
 
-(** the statement is true for pods without requested ranges: with no injected fault, the informer showing the pod,
-    the pod still pending in the API server, bind on a filter-approved node succeeds - or the oracle given is not one
-    the implementation could have taken (BStuck), or an IP of the key is still stored for an earlier incarnation (the
-    documented wait for its deletion event) *)
+(** special cases that need no disjointness premise: pods without requested ranges *)
 Theorem filter_then_bind_noranges : ∀ w p nodes o fl w1 l ns name node o2 w2 r,
   WInv w → w_pods w !! (ns, name) = Some p → pd_node p = [] → pd_ranges p = [] →
   filter_section w p nodes o fl = (w1, FNodes l) → In node l →
@@ -233,3 +241,14 @@ Example filter_bind_nonvacuous :
   w_nodes w !! L "node3" = Some (ip4 10 3 0 5) ∧ node_subnet (w_ipam w) (ip4 10 3 0 5) = Some (ip4 10 3 0 0, 24) ∧
   ip_has_subnet (i_pools (w_ipam w)) y (ip4 10 3 0 0, 24) = true.
 Proof. exact ex_fresh_l. Qed.
+
+(** ... and with two range lists to allocate: a fresh pod requesting 10.100.0.3 (pool A: subnets of node1, node2) and
+    10.101.0.2 (pool B: subnets of node1, node3) is offered node1 only; bind there writes both addresses *)
+Example filter_then_bind_ranges_nonvacuous :
+  let w := ex_ftb_world in let p := ex_ranges_pod in
+  WInv w ∧ w_pods w !! (L "ns1", L "web-0") = Some p ∧ w_lister w !! (L "ns1", L "web-0") = Some p ∧ pd_node p = [] ∧
+  ranges_disjoint (pd_ranges p) ∧ List.length (missing_ranges (w_ipam w) p) = 2%nat ∧
+  filter_section w p ex_allnodes no_oracle no_faults = (w, FNodes [L "node1"]) ∧
+  (bind_section true true w (L "ns1") (L "web-0") (pd_uid p) (L "node1") no_oracle no_faults).2 =
+    BOk [ip4 10 100 0 3; ip4 10 101 0 2].
+Proof. exact ex_ftb_ranges_l. Qed.
